@@ -33,7 +33,7 @@ GENERATED = common.LEAN_DIR / "Generated" / "C07Sites.lean"
 _SCAN = None
 
 DEFAULTS = dict(search="CBO", sm="ET", acq="UCBd", mps="cl_max", design="random", cond=False, nobj=1, moo="Chebyshev",
-                acq_opt="auto", transfer="none", mode="asktell", fail=False)
+                acq_opt="auto", transfer="none", mode="asktell", fail=False, space="mixed", seed=1, seed_type="int")
 N_INIT = 4
 OPTION_KEYS = list(DEFAULTS)
 
@@ -43,6 +43,22 @@ MPS = ["cl_min", "cl_mean", "cl_max", "topk", "boltzmann", "qUCB", "qUCBd"]
 DESIGN = ["random", "sobol", "halton", "hammersly", "lhs", "grid"]
 MOO = ["Linear", "Chebyshev", "AugChebyshev", "PBI", "Quadratic"]
 SCRIPTS = [[2, 2, 2, 1, 2], [1, 1, 1, 1, 1, 1, 1], [3, 1, 3, 1], [4, 3, 2], [2, 2, 1, 1, 1, 3]]
+# small all-discrete space (24 points): more evaluations than half the space, so that the candidate sets contain
+# duplicates and already-sampled points at every step
+SMALL_SCRIPTS = [[2, 2, 2, 2, 2, 2, 2], [3, 1, 3, 1, 3, 1, 2], [1, 1, 2, 2, 3, 3, 2]]
+UNUSUAL_SEEDS = [0, 2 ** 31 - 1, 2 ** 32 - 1]
+# NumPy integer seeds: on the current tree `type(random_state) is int` silently ignores them (np.int64(5) gives an
+# OS-entropy generator; reported, repair = commit "fix: Search accepts NumPy integer seeds" on branch fix-g7).
+# Set to ["int64", "uint32"] once that fix is merged: the thorough spine then runs them for every search class.
+NUMPY_SEED_TYPES = ["int64", "uint32"]
+
+
+def other_seed(seed):
+    return seed + 1000 if seed + 1000 < 2 ** 32 else seed - 1000
+
+
+def case_cfg(c):
+    return {k: c[k] for k in sorted(c)}
 
 
 # --------------------------------------------------------------------------- translator hook
@@ -72,8 +88,7 @@ def pre_lean(ck):
 def full(cfg):
     c = dict(DEFAULTS)
     c.update(cfg)
-    c.setdefault("seed", 1)
-    c.setdefault("batches", SCRIPTS[0])
+    c.setdefault("batches", SMALL_SCRIPTS[0] if c["space"] == "small" else SCRIPTS[0])
     return c
 
 
@@ -85,38 +100,72 @@ def nondefault(cfg):
     return {k: cfg[k] for k in OPTION_KEYS if cfg[k] != DEFAULTS[k]}
 
 
-def spine():
-    """hand-picked configurations: every value of every axis at least once, the two known families first"""
+def spine(thorough=False):
+    """hand-picked configurations: every value of every axis at least once, the known families first; unusual seeds
+    (0 is falsy!) and a small all-discrete space with string categories for every search class"""
     S = [
         dict(acq="MES"),
         dict(search="REGEVO", batches=[2, 2, 2, 1, 2, 2]),
         dict(),
+        dict(seed=0),
+        dict(space="small", seed=0),
+        dict(search="RS", space="small", seed=0, mode="search"),
+        dict(search="REGEVO", space="small", seed=0),
         dict(sm="RF", acq="MESd", mps="qUCB", design="sobol", batches=[3, 1, 3, 1]),
         dict(search="REGEVO", cond=True, batches=[3, 3, 1, 1, 2]),
         dict(search="RS", mode="search", batches=[4, 3, 2]),
-        dict(search="RS", cond=True),
+        dict(search="RS", cond=True, seed=2 ** 32 - 1),
         dict(sm="RF", acq="EI", mps="qUCB", design="sobol", nobj=2, moo="Linear"),
         dict(sm="GP", acq="UCB", mps="cl_min", design="halton"),
         dict(sm="GP", acq="gp_hedge", mps="cl_mean", cond=True, batches=[3, 1, 3, 1]),
-        dict(acq="gp_hedged", mps="qUCBd", design="lhs"),
+        dict(acq="gp_hedged", mps="qUCBd", design="lhs", space="small"),
         dict(sm="TB", acq="PId", mps="boltzmann", design="grid"),
         dict(acq="EId", mps="topk", design="hammersly", batches=[4, 3, 2]),
         dict(sm="RS", acq="PI", cond=True, nobj=2, moo="AugChebyshev"),
         dict(mode="search", fail=True, batches=[4, 3, 2]),
         dict(nobj=2, moo="PBI", cond=True, batches=[2, 2, 1, 1, 1, 3]),
-        dict(sm="RF", acq="UCB", mps="cl_min", nobj=2, moo="Quadratic"),
+        dict(sm="RF", acq="UCB", mps="cl_min", nobj=2, moo="Quadratic", seed=2 ** 31 - 1),
         dict(sm="RF", acq="EI", mps="cl_mean", fail=True, cond=True),
         dict(search="EDS", design="sobol"),
         dict(search="EDS", design="halton", batches=[4, 3, 2]),
         dict(search="EDS", design="hammersly", cond=True, batches=[4, 3, 2]),
-        dict(sm="DUMMY"),
+        dict(sm="DUMMY", seed=0),
         dict(transfer="gmm"),
         dict(sm="GP", acq="EI", acq_opt="lbfgs", batches=[1, 1, 1, 1, 1, 1, 1]),
         dict(acq="MES", nobj=2, cond=True, mps="cl_mean"),
         dict(sm="GBRT", acq="UCB"),
         dict(sm="HGBRT", acq="EI"),
     ]
+    if thorough:
+        S += stress_set()
+        for search in ("CBO", "RS", "REGEVO", "EDS"):
+            for sd in UNUSUAL_SEEDS:
+                S.append(dict(search=search, seed=sd))
+                S.append(dict(search=search, seed=sd, cond=True, mode="search"))
+            for t in NUMPY_SEED_TYPES:
+                S.append(dict(search=search, seed=5, seed_type=t))
     return [full(c) for c in S]
+
+
+def stress_set():
+    """configurations that drive the non-trivial paths of the optimizer / search stack: a small all-discrete space
+    with string categories (duplicates and already-sampled candidates at every step, hash order of tuples of strings
+    differs between processes) for every multi-point strategy and every search class, and the falsy seed 0"""
+    S = []
+    for i, mps in enumerate(MPS):
+        S.append(dict(space="small", mps=mps, batches=SMALL_SCRIPTS[i % len(SMALL_SCRIPTS)]))
+    S += [
+        dict(space="small", cond=True, batches=SMALL_SCRIPTS[1]),
+        dict(space="small", sm="RF", acq="EI", mode="search", fail=True),
+        dict(space="small", sm="GP", acq="UCB", mps="cl_min", n_points=48),
+        dict(space="small", nobj=2, acq="gp_hedged", mps="qUCBd"),
+        dict(space="small", design="lhs", acq="MES"),
+        dict(space="small", search="RS"), dict(space="small", search="RS", cond=True, mode="search"),
+        dict(space="small", search="REGEVO"), dict(space="small", search="REGEVO", cond=True, batches=SMALL_SCRIPTS[1]),
+        dict(space="small", search="EDS", design="grid", n_points=14),
+        dict(seed=0), dict(seed=0, search="RS"), dict(seed=0, search="REGEVO"), dict(seed=0, space="small", search="REGEVO"),
+    ]
+    return S
 
 
 def random_cfg(rng, allow_ga=False):
@@ -154,9 +203,12 @@ def random_cfg(rng, allow_ga=False):
         c["fail"] = rng.random() < 0.2
     if c.get("nobj") == 2:
         c["fail"] = False  # failures before the first success in MOO are C04/C06's concern
-    c["seed"] = rng.choice([1, 7, 42, 2024])
-    c["batches"] = list(rng.choice(SCRIPTS))
-    if c.get("search") == "REGEVO":
+    c["seed"] = rng.choice([1, 7, 42, 2024, 0, 0, 2 ** 31 - 1, 2 ** 32 - 1])
+    c["space"] = "small" if rng.random() < 0.3 else "mixed"
+    c["batches"] = list(rng.choice(SMALL_SCRIPTS if c["space"] == "small" else SCRIPTS))
+    if c["space"] == "small" and c.get("search") == "EDS":
+        c["n_points"] = 14
+    if c.get("search") == "REGEVO" and c["space"] != "small":
         c["batches"] = c["batches"] + [2, 1]
     return full(c)
 
@@ -173,6 +225,9 @@ def configs_for_site(site):
         res.append(full(c))
         if "cond" not in c:
             res.append(full(dict(c, cond=True)))
+        if "space" not in c:
+            c2 = {k: v for k, v in c.items() if k != "batches"}
+            res.append(full(dict(c2, space="small")))
     return res
 
 
@@ -244,7 +299,7 @@ def model_request(cfg):
     """the configuration as `Opts` + `Op` script of Model/Streams.lean (environment flags from the script)"""
     strat = {"cl_min": "cl", "cl_mean": "cl", "cl_max": "cl", "topk": "topk", "boltzmann": "boltzmann", "qUCB": "qlcb", "qUCBd": "qlcb"}
     search = {"CBO": "CBO", "EDS": "CBO", "RS": "RS", "REGEVO": "REGEVO"}[cfg["search"]]
-    opts = dict(search=search, strategy=strat[cfg["mps"]], ndims=5 + (2 if cfg["cond"] else 0),
+    opts = dict(search=search, strategy=strat[cfg["mps"]], ndims=(3 + (1 if cfg["cond"] else 0)) if cfg["space"] == "small" else 5 + (2 if cfg["cond"] else 0),
                 estimatorByName=cfg["sm"] in ("GP", "DUMMY"), cfgSpace=bool(cfg["cond"]), design=cfg["design"] != "random",
                 mes=cfg["acq"] in ("MES", "MESd"), hedge=cfg["acq"].startswith("gp_hedge"), moo=cfg["nobj"] == 2,
                 pymoo=cfg["acq_opt"] in ("ga", "mixedga"))
@@ -307,9 +362,12 @@ def diagnose_and_shrink(ck, R, cfg):
             cur = dict(cur, batches=p)
             break
     # 3. which hidden input
-    kinds = {"hashSeed": ("hash",), "globalRng": ("globals",)}
+    kinds = {"osEntropy": (), "hashSeed": ("hash",), "globalRng": ("globals",)}
     res = settle([differs(cur, v) for v in kinds.values()])
     hidden = sorted(k for k, bad in zip(kinds, res) if bad)
+    if "osEntropy" in hidden:
+        # differs although hash seed and global generators are equal in both processes: nothing controllable explains it
+        hidden = ["osEntropy"]
     fa, fb = differs(cur)
     ra, rb = fa.result(), fb.result()
     return cur, hidden, ra, rb
@@ -321,7 +379,7 @@ SEARCH_CLASS = {"CBO": "CBO", "EDS": "ExperimentalDesignSearch", "RS": "RandomSe
 def shrink_seeds_same(R, cfg):
     """smallest configuration (towards DEFAULTS, search class kept) for which two seeds still give one sequence"""
     def same(c):
-        return R.submit(c, 1, 3, "a"), R.submit(dict(c, seed=c["seed"] + 1000), 1, 3, "c")
+        return R.submit(c, 1, 3, "a"), R.submit(dict(c, seed=other_seed(c["seed"])), 1, 3, "c")
 
     def settle(pairs):
         out = []
@@ -433,7 +491,7 @@ def run(ck):
 
             def add(c, origin):
                 c = full(c)
-                key = common.canon({k: c[k] for k in OPTION_KEYS + ["seed", "batches"]})
+                key = common.canon(case_cfg(c))
                 if key not in seen:
                     seen.add(key)
                     todo.append((c, origin))
@@ -444,7 +502,11 @@ def run(ck):
             for s in offending:
                 for c in configs_for_site(s):
                     add(c, "reaches-offending-site")
-            for c in spine():
+            if offending:
+                # a flagged site somewhere in the stack: also drive the stack's non-trivial paths
+                for c in stress_set():
+                    add(c, "reaches-offending-site")
+            for c in spine(ck.thorough):
                 add(c, "spine")
             for _ in range(ck.pick(4, 230)):
                 add(random_cfg(ck.rng, allow_ga=ck.thorough), "random")
@@ -456,18 +518,20 @@ def run(ck):
             futs, differing, seeds_same = [], {}, []
             for c, origin in todo:
                 fa, fb = R.pair(c)
-                c2 = dict(c, seed=c["seed"] + 1000)
+                c2 = dict(c, seed=other_seed(c["seed"]))
                 futs.append((c, origin, fa, fb, R.submit(c2, 1, 3, "c")))
             preds = drv.ask_all([{"op": "predict", "cfg": lean_cfg(c), "rounds": len(c["batches"])} for c, _ in todo])
             models = drv.ask_all([model_request(c) for c, _ in todo])
 
             for (c, origin, fa, fb, fc), pred, mod in zip(futs, preds, models):
                 ra, rb, rc = fa.result(), fb.result(), fc.result()
-                case = {"cfg": {k: c[k] for k in OPTION_KEYS + ["seed", "batches"]}, "origin": origin}
+                case = {"cfg": case_cfg(c), "origin": origin}
                 ck.count("origin:" + origin)
                 for k in ("search", "sm", "acq", "mps", "design", "moo", "acq_opt", "transfer", "mode"):
                     if c["search"] in ("CBO", "EDS") or k in ("search", "mode"):
                         ck.count(f"{k}={c[k]}")
+                ck.count(f"space={c['space']}")
+                ck.count("seed=" + (str(c["seed"]) if c["seed"] in UNUSUAL_SEEDS else "other"))
                 ck.count(f"cond={c['cond']}")
                 ck.count(f"nobj={c['nobj']}")
                 ck.count(f"fail={c['fail']}")
@@ -528,7 +592,7 @@ def run(ck):
                     spred = drv.ask({"op": "predict", "cfg": lean_cfg(cur), "rounds": len(cur["batches"])})
                     clause = "depends-on-" + "+".join(hidden) if hidden else "differs-across-processes"
                     fp = fingerprint(clause, spred["hidden"], cur)
-                    shr = {"cfg": {k: cur[k] for k in OPTION_KEYS + ["seed", "batches"]},
+                    shr = {"cfg": case_cfg(cur),
                            "hidden_inputs": hidden, "table_sites": spred["hidden"],
                            "also_failing": [g[1]["cfg"] for g in group][:8],
                            "envs": {"a": {"PYTHONHASHSEED": 1, "perturb": 3}, "b": {"PYTHONHASHSEED": 2, "perturb": 17}}}
@@ -545,8 +609,8 @@ def run(ck):
                     memo[mk] = shrink_seeds_same(R, c)
                 cur = memo[mk]
                 ck.fail(fingerprint_seeds_same(cur),
-                        f"{SEARCH_CLASS[cur['search']]}: seeds {cur['seed']} and {cur['seed'] + 1000} give the same proposal sequence",
-                        {"cfg": {k: cur[k] for k in OPTION_KEYS + ["seed", "batches"]}, "other_seed": cur["seed"] + 1000,
+                        f"{SEARCH_CLASS[cur['search']]}: seeds {cur['seed']} and {other_seed(cur['seed'])} give the same proposal sequence",
+                        {"cfg": case_cfg(cur), "other_seed": other_seed(cur["seed"]),
                          "original_cfg": case["cfg"]}, {"proposals": ra["props"][:3]})
             ck.count("children-launched", R.launched)
     finally:
@@ -573,7 +637,7 @@ def search(ck):
         futs = [(c, *R.pair(c)) for c in todo]
         for c, fa, fb in futs:
             ra, rb = fa.result(), fb.result()
-            case = {"cfg": {k: c[k] for k in OPTION_KEYS + ["seed", "batches"]}, "origin": "deeper-search"}
+            case = {"cfg": case_cfg(c), "origin": "deeper-search"}
             if ra["status"] == "unavailable":
                 continue
             ck.case(case, nontrivial=len(ra["props"]) >= 2)
@@ -584,7 +648,7 @@ def search(ck):
                     spred = drv.ask({"op": "predict", "cfg": lean_cfg(cur), "rounds": len(cur["batches"])})
                 clause = "depends-on-" + "+".join(hidden) if hidden else "differs-across-processes"
                 ck.fail(fingerprint(clause, spred["hidden"], cur), "same seed, same options, two interpreters: proposal sequences differ",
-                        {"cfg": {k: cur[k] for k in OPTION_KEYS + ["seed", "batches"]}, "hidden_inputs": hidden, "table_sites": spred["hidden"]},
+                        {"cfg": case_cfg(cur), "hidden_inputs": hidden, "table_sites": spred["hidden"]},
                         {"first_difference": first_diff(sa, sb)})
                 return
     finally:
@@ -596,7 +660,7 @@ def replay(ck, case):
     R = Runner(ck)
     try:
         fa, fb = R.pair(cfg)
-        fc = R.submit(dict(cfg, seed=case.get("other_seed", cfg["seed"] + 1000)), 1, 3, "c")
+        fc = R.submit(dict(cfg, seed=case.get("other_seed", other_seed(cfg["seed"]))), 1, 3, "c")
         ra, rb, rc = fa.result(), fb.result(), fc.result()
         with ck.driver() as drv:
             pred = drv.ask({"op": "predict", "cfg": lean_cfg(cfg), "rounds": len(cfg["batches"])})
